@@ -1,4 +1,6 @@
-import Sucds.Proofs.GenAll
+import Sucds.Proofs.GenRank9Build
+import Sucds.Proofs.GenRank9Query
+import Sucds.Proofs.GenBitVectorRW
 /-! # The `Rank9Sel` wrapper generated from `src/bit_vectors/rank9sel.rs` agrees with the model `R9`
 
 `Sucds.GenFn.Rank9Sel.{new, select1_hints, select0_hints, from_bits, build_from_bits, bit_vector, rs_index, len,
